@@ -698,6 +698,7 @@ DoPrep(chs, c, b, sz, al, fail) ==
 PrepNeedsBase(chs, c, sz, al) ==
     ~(c # 0 /\ PFits(chs[c], sz, al)) /\ (c = 0 \/ ~WalkPrep(chs, c + 1, sz, al).found)
 
+HugeSz == 1073741824    \* stands for isize::MAX - 64 in the replayer
 MinNonZeroCap(esz) == IF esz = 1 THEN 8 ELSE IF esz <= 1024 THEN 4 ELSE 1
 
 InPrep == Depth > 0 /\ frames[Depth].kind = "prep"
@@ -705,24 +706,27 @@ InPrep == Depth > 0 /\ frames[Depth].kind = "prep"
 \* a collection is created with capacity `c0` (0 = `new_in`: nothing is prepared until the first push)
 \* e = [sz, al] element layout (sz a positive multiple of al); rev = MutBumpVecRev
 \* str = MutBumpString (bytes, forward only): the same state machine as MutBumpVec<u8>
-EnterPrepG(e, rev, c0, fail, str) ==
+\* init: from_elem_in(value, c0) -- created with capacity c0 and filled with c0 elements without a further capacity check
+EnterPrepG(e, rev, c0, fail, str, init) ==
     /\ Active /\ Free /\ NoVecsHere /\ Depth < MaxDepth /\ e.sz > 0 /\ e.sz % e.al = 0
     /\ str => (e.sz = 1 /\ ~rev)
+    /\ init => (c0 > 0 /\ ~str)
     /\ fail => (CanFail /\ c0 > 0 /\ PrepNeedsBase(chunks, cur, c0 * e.sz, e.al))
     /\ LET r == IF c0 = 0 THEN [ok |-> TRUE, chunks |-> chunks, cur |-> cur, base |-> base, lo |-> 0, hi |-> 0]
                 ELSE DoPrep(chunks, cur, base, c0 * e.sz, e.al, fail)
            cap == IF c0 = 0 \/ ~r.ok THEN 0 ELSE (r.hi - r.lo) \div e.sz
        IN /\ chunks' = r.chunks /\ cur' = r.cur /\ base' = r.base
           /\ frames' = Append(frames, [kind |-> "prep", cp |-> Checkpoint, live |-> LiveIds, ma |-> ma, cps |-> cps, alloc0 |-> StatAllocated(chunks, cur),
-                                        esz |-> e.sz, eal |-> e.al, rev |-> rev, lo |-> r.lo, hi |-> r.hi, cap |-> cap, len |-> 0,
+                                        esz |-> e.sz, eal |-> e.al, rev |-> rev, lo |-> r.lo, hi |-> r.hi, cap |-> cap,
+                                        len |-> IF init /\ r.ok THEN c0 ELSE 0,
                                         failed |-> ~r.ok])
           /\ cps' = <<>> /\ last' = 0
           /\ fails' = IF fail THEN fails + 1 ELSE fails
           /\ UNCHANGED <<cfg, ma, blocks, nextId, order, parts, dropped>>
-          /\ Step("enter", [kind |-> "prep", esz |-> e.sz, eal |-> e.al, rev |-> rev, cap |-> c0, fail |-> fail, str |-> str],
+          /\ Step("enter", [kind |-> "prep", esz |-> e.sz, eal |-> e.al, rev |-> rev, cap |-> c0, fail |-> fail, str |-> str, init |-> init],
                   Exp(IF r.ok THEN "ok" ELSE "err", 0, [cap |-> cap, lo |-> r.lo, hi |-> r.hi, newchunk |-> Len(r.chunks) > Len(chunks)]))
 
-EnterPrep(e, rev, c0, fail) == EnterPrepG(e, rev, c0, fail, FALSE)
+EnterPrep(e, rev, c0, fail) == EnterPrepG(e, rev, c0, fail, FALSE, FALSE)
 
 \* push one element; grows (re-prepares max(2 cap, len + 1, min_non_zero_cap) elements and copies) when full
 PrepPush(fail) ==
@@ -763,6 +767,19 @@ PrepReserve(additional, fail) ==
                 /\ Step("prep_reserve", [n |-> additional, fail |-> fail, grows |-> grows, ncap |-> ncap],
                         Exp(IF r.ok THEN "ok" ELSE "err", 0,
                             [cap |-> cap2, lo |-> r.lo, hi |-> r.hi, len |-> f.len, newchunk |-> Len(r.chunks) > Len(chunks)]))
+
+\* reserve of a number of elements whose chunk size computation overflows (the layout itself is valid): the slow path
+\* walks the later chunks and then reports a capacity overflow -- an error of try_reserve, an unwinding panic of reserve.
+\* Either way the collection and the current chunk are as before (the later chunks have been reset).
+PrepReserveHuge ==
+    /\ Active /\ InPrep /\ ~frames[Depth].failed
+    /\ LET f == frames[Depth]
+           r == DoPrep(chunks, cur, base, HugeSz, f.eal, TRUE)
+       IN /\ ~r.ok
+          /\ chunks' = r.chunks /\ cur' = r.cur
+          /\ UNCHANGED <<cfg, base, ma, frames, blocks, cps, nextId, order, parts, last, fails, dropped>>
+          /\ Step("prep_reserve", [n |-> 0, fail |-> FALSE, grows |-> TRUE, ncap |-> 0, huge |-> TRUE],
+                  Exp("err", 0, [cap |-> f.cap, lo |-> f.lo, hi |-> f.hi, len |-> f.len, newchunk |-> FALSE]))
 
 \* extend_from_slice_copy / push_str of k elements: reserve(k) (amortised), then the elements are copied without a further
 \* capacity check
@@ -1030,6 +1047,69 @@ VecInto(id) ==
                   Exp("ok", IF keeps THEN r.addr ELSE 0,
                       [wastop |-> Top(order) = id, shrunk |-> sh, optout |-> WS(b.wrap) \/ ~cfg.shrinks, len |-> b.vlen, cap |-> 0]))
 
+\* ---- one-shot helpers built on growable collections: alloc_iter, alloc_fmt, alloc_cstr_fmt -----------------------------
+\* alloc_iter      = BumpVec::with_capacity_in(size_hint.0) ; push every element (amortised growth) ; into_boxed_slice
+\* alloc_fmt       = BumpString::new_in ; one push_str per written piece (reserve, amortised) ; into_boxed_str
+\* alloc_cstr_fmt  = the same, then push of the terminating NUL
+\* st = [ok, chunks, cur, base, addr, cap, len] : the collection's buffer while the helper runs
+VGrowTo(st, ncap, esz, eal) ==
+    LET r == IF st.cap = 0 THEN DoAlloc(st.chunks, st.cur, st.base, ncap * esz, eal, ma, FALSE)
+             ELSE DoGrow(st.chunks, st.cur, st.base, st.addr, st.cap * esz, ncap * esz, eal, ma, FALSE)
+    IN IF ~r.ok THEN [st EXCEPT !.ok = FALSE]
+       ELSE [st EXCEPT !.chunks = r.chunks, !.cur = r.cur, !.base = r.base, !.addr = r.addr, !.cap = ncap]
+
+RECURSIVE VPushN(_, _, _, _)
+VPushN(st, k, esz, eal) ==
+    IF k = 0 \/ ~st.ok THEN st
+    ELSE LET st1 == IF st.len < st.cap THEN st
+                    ELSE VGrowTo(st, Max(Max(2 * st.cap, st.len + 1), MinNonZeroCap(esz)), esz, eal)
+         IN IF ~st1.ok THEN st1 ELSE VPushN([st1 EXCEPT !.len = @ + 1], k - 1, esz, eal)
+
+RECURSIVE VExtendN(_, _, _)
+VExtendN(st, pieces, k) ==
+    IF k > Len(pieces) \/ ~st.ok THEN st
+    ELSE LET L == pieces[k]
+             st1 == IF st.cap - st.len >= L THEN st
+                    ELSE VGrowTo(st, Max(Max(2 * st.cap, st.len + L), MinNonZeroCap(1)), 1, 1)
+         IN IF ~st1.ok THEN st1 ELSE VExtendN([st1 EXCEPT !.len = @ + L], pieces, k + 1)
+
+\* shrink_to_fit at the end of the helper
+VFinish(st, esz, eal) ==
+    IF st.ok /\ st.cap > st.len /\ cfg.shrinks /\ IsLast(st.chunks, st.cur, st.addr, st.cap * esz)
+    THEN LET r == DoShrink(st.chunks, st.cur, st.base, st.addr, st.cap * esz, st.len * esz, eal, ma, FALSE, FALSE)
+         IN [st EXCEPT !.chunks = r.chunks, !.cur = r.cur, !.addr = r.addr, !.cap = st.len]
+    ELSE st
+
+GrowHelper(name, args, st, esz, eal) ==
+    LET bytes == st.len * esz
+        made  == st.ok /\ bytes > 0
+    IN /\ st.ok                                   \* (no failure injection inside the helpers)
+       /\ chunks' = st.chunks /\ cur' = st.cur /\ base' = st.base
+       /\ blocks' = IF made THEN [i \in LiveIds \cup {nextId} |-> IF i = nextId THEN [addr |-> st.addr, sz |-> bytes, al |-> eal] ELSE blocks[i]]
+                    ELSE blocks
+       /\ nextId' = IF made THEN nextId + 1 ELSE nextId
+       /\ order' = IF made THEN Append(order, nextId) ELSE order
+       /\ parts' = parts
+       /\ last' = 0
+       /\ UNCHANGED <<cfg, ma, frames, cps, fails, dropped>>
+       /\ Step(name, [a \in DOMAIN args \cup {"id"} |-> IF a = "id" THEN (IF made THEN nextId ELSE 0) ELSE args[a]],
+               Exp("ok", IF made THEN st.addr ELSE 0, [len |-> bytes, newchunk |-> Len(st.chunks) > Len(chunks)]))
+
+VSt0 == [ok |-> TRUE, chunks |-> chunks, cur |-> cur, base |-> base, addr |-> 0, cap |-> 0, len |-> 0]
+
+IterGrow(e, hint, n) ==
+    /\ Active /\ Free /\ Cardinality(LiveIds) < MaxBlocks /\ e.sz > 0 /\ e.sz % e.al = 0
+    /\ LET st0 == IF hint = 0 THEN VSt0 ELSE VGrowTo(VSt0, hint, e.sz, e.al)
+           st  == VFinish(VPushN(st0, n, e.sz, e.al), e.sz, e.al)
+       IN GrowHelper("iter_grow", [esz |-> e.sz, eal |-> e.al, hint |-> hint, n |-> n], st, e.sz, e.al)
+
+FmtGrow(pieces, cstr) ==
+    /\ Active /\ Free /\ Cardinality(LiveIds) < MaxBlocks /\ Len(pieces) >= 2
+    /\ LET st1 == VExtendN(VSt0, pieces, 1)
+           st2 == IF cstr THEN VPushN(st1, 1, 1, 1) ELSE st1
+           st  == VFinish(st2, 1, 1)
+       IN GrowHelper("fmt_grow", [pieces |-> pieces, cstr |-> cstr], st, 1, 1)
+
 \* ---- splitting a block (BumpBox<[T]>::split_off, split_at, FixedBumpVec::split_off ...) -----------------------
 \* No allocator call: the caller from now on treats the two halves as separate allocations ("memory blocks can be
 \* split", BumpAllocatorCore docs); both halves keep the alignment of the element type.
@@ -1124,7 +1204,6 @@ ResetLoop(ls, rounds) ==
 \* ---- requests whose size computation overflows (a layout close to isize::MAX) -----------------------
 \* The fast path fails, the slow path walks the later chunks (resetting them and moving the current chunk forward)
 \* and then fails to compute a chunk size: capacity overflow, reported as an error; the base allocator is not called.
-HugeSz == 1073741824    \* stands for isize::MAX - 64 in the replayer
 AllocHuge(al) ==
     /\ Active /\ Free
     /\ LET r == DoAlloc(chunks, cur, base, HugeSz, al, ma, TRUE)
